@@ -1,8 +1,9 @@
 (* C15 -- Radix-50 packing.
    Only statements, each closed by [exact] of a lemma from Proofs/Rad50P.v, then Print Assumptions.
-   [upper] stands for Python's str.upper() on one character; the theorems hold for EVERY function
-   that agrees with ASCII upper-casing below 128 (for the other code points Python's answer is an
-   oracle passed to the model by the sweeps), and the refusal theorems for every function at all. *)
+   '.rad50' refuses non-ASCII characters before upper-casing (char.isascii(), /repo aa9a583) and '^R'
+   only matches ASCII characters, so str.upper() is only applied to ASCII, where it is a..z -> A..Z:
+   the theorems are stated outright against Spec/Rad50Spec.v, with no assumption about Python's
+   Unicode case mapping. *)
 From Coq Require Import String List ZArith NArith Bool.
 From Verif Require Import Base.Res Base.Bytes Gen.GenRadix50 Spec.Rad50Spec Model.Rad50 Proofs.Rad50P.
 Import ListNotations.
@@ -27,8 +28,8 @@ Print Assumptions C15_pack_unpack.
    words decode (standard algorithm, Spec alphabet) to the upper-cased text, <n> standing for the
    n-th alphabet character, padded with spaces to a multiple of three. *)
 Theorem C15_rad50_directive :
-  forall upper cs, upper_ascii_ok upper -> Forall good_chunk cs ->
-  exists ws, rad50 rad50_table upper cs = Ok (flat_map le16 ws) /\
+  forall cs, Forall good_chunk cs ->
+  exists ws, rad50 rad50_table cs = Ok (flat_map le16 ws) /\
              words_of_bytes (flat_map le16 ws) = ws /\
              Forall (fun w => 0 <= w < 64000) ws /\
              decode ws = Some (pad3 32%N (flat_map chunk_text cs)).
@@ -37,8 +38,8 @@ Print Assumptions C15_rad50_directive.
 
 (* the property text verbatim for one plain string *)
 Theorem C15_rad50_string :
-  forall upper s, upper_ascii_ok upper -> Forall (fun ch => accepted_char ch = true) s ->
-  exists ws, rad50 rad50_table upper [Str s] = Ok (flat_map le16 ws) /\
+  forall s, Forall (fun ch => accepted_char ch = true) s ->
+  exists ws, rad50 rad50_table [Str s] = Ok (flat_map le16 ws) /\
              Forall (fun w => 0 <= w < 64000) ws /\
              decode ws = Some (expected_text s).
 Proof. exact rad50_string. Qed.
@@ -46,42 +47,42 @@ Print Assumptions C15_rad50_string.
 
 (* <n> with n >= 40 or n < 0 anywhere in the operand: the assembly fails with 'value-out-of-bounds' *)
 Theorem C15_bad_code_error :
-  forall upper cs n, In (Code n) cs -> n < 0 \/ 40 <= n ->
-  exists ids, rad50 rad50_table upper cs = Err ids /\ In "value-out-of-bounds"%string ids.
+  forall cs n, In (Code n) cs -> n < 0 \/ 40 <= n ->
+  exists ids, rad50 rad50_table cs = Err ids /\ In "value-out-of-bounds"%string ids.
 Proof. exact rad50_bad_code. Qed.
 Print Assumptions C15_bad_code_error.
 
-(* a character whose upper-case form is not a single alphabet character, anywhere in the operand:
-   the assembly fails with 'invalid-character' (any [upper] whatsoever, any code point) *)
+(* every character -- any code point, no bound -- that is not an alphabet character in either ASCII case
+   (accepted_char of the Spec), anywhere in the operand: the assembly fails with 'invalid-character' *)
 Theorem C15_outside_alphabet_error :
-  forall upper cs s ch, In (Str s) cs -> In ch s -> (forall u, upper ch = [u] -> ~ In u alphabet) ->
-  exists ids, rad50 rad50_table upper cs = Err ids /\ In "invalid-character"%string ids.
+  forall cs s ch, In (Str s) cs -> In ch s -> accepted_char ch = false ->
+  exists ids, rad50 rad50_table cs = Err ids /\ In "invalid-character"%string ids.
 Proof. exact outside_alphabet_error. Qed.
 Print Assumptions C15_outside_alphabet_error.
 
-(* conversely, success means every character folded to one alphabet character and every <n> is a code *)
+(* conversely, success means every character is an alphabet character in either ASCII case and every <n> is a code *)
 Theorem C15_ok_only_if :
-  forall upper cs bs, rad50 rad50_table upper cs = Ok bs -> Forall (chunk_accepted upper) cs.
+  forall cs bs, rad50 rad50_table cs = Ok bs -> Forall good_chunk cs.
 Proof. exact rad50_ok_only_if. Qed.
 Print Assumptions C15_ok_only_if.
 
 (* '.rad50' always ends in bytes or in reported errors: the struct.error / ValueError paths are dead *)
 Theorem C15_never_crashes :
-  forall upper cs,
-  (exists bs, rad50 rad50_table upper cs = Ok bs /\ snd (chunk_codes rad50_table upper cs) = []) \/
-  (exists ids, rad50 rad50_table upper cs = Err ids /\ ids = snd (chunk_codes rad50_table upper cs) /\ ids <> []).
-Proof. exact rad50_total. Qed.
+  forall cs,
+  (exists bs, rad50 rad50_table cs = Ok bs /\ snd (chunk_codes rad50_table cs) = []) \/
+  (exists ids, rad50 rad50_table cs = Err ids /\ ids = snd (chunk_codes rad50_table cs) /\ ids <> []).
+Proof. exact rad50_never_crashes. Qed.
 Print Assumptions C15_never_crashes.
 
 (* ^Rccc with 1..3 characters (either case, no space: the literal's character class), followed by
    the end of the text or a character outside the class: its value is the one word '.rad50' emits for
    the same characters, and decodes to the upper-cased characters padded with spaces *)
 Theorem C15_literal :
-  forall upper s rest, upper_ascii_ok upper ->
+  forall s rest,
   (1 <= Datatypes.length s <= 3)%nat -> Forall lit_char s ->
   match rest with [] => True | c :: _ => lit_class rad50_table c = false end ->
-  exists w, literal rad50_table upper (s ++ rest) = Ok w /\
-            rad50 rad50_table upper [Str s] = Ok (le16 w) /\
+  exists w, literal rad50_table (s ++ rest) = Ok w /\
+            rad50 rad50_table [Str s] = Ok (le16 w) /\
             0 <= w < 64000 /\
             decode [w] = Some (expected_text s).
 Proof. exact literal_spec. Qed.
@@ -95,10 +96,10 @@ Print Assumptions C15_literal_class.
 
 (* no characters, or more than three, after ^R: never a value without an error *)
 Theorem C15_literal_bad_length :
-  forall upper text,
+  forall text,
   (Datatypes.length (take_while (lit_class rad50_table) text) = 0 \/
    3 < Datatypes.length (take_while (lit_class rad50_table) text))%nat ->
-  ~ exists w, literal rad50_table upper text = Ok w.
+  ~ exists w, literal rad50_table text = Ok w.
 Proof. exact literal_bad_length. Qed.
 Print Assumptions C15_literal_bad_length.
 
@@ -112,12 +113,12 @@ Proof.
   split; [vm_compute; reflexivity|]. split; [|vm_compute; reflexivity].
   repeat constructor; vm_compute; congruence.
 Qed.
-Example C15_ascii_upper_ok : upper_ascii_ok ascii_upper.
-Proof. exact ascii_upper_ok. Qed.
-(* U+FB06 (ligature st) with Python's upper() = "ST": refused *)
-Example C15_ligature_refused :
-  rad50 rad50_table (fun c => if N.eqb c 64262 then [83; 84]%N else ascii_upper c) [Str [64262%N]] = Err ["invalid-character"%string].
-Proof. vm_compute. reflexivity. Qed.
+(* U+FB06 (ligature st, upper() = "ST"), U+017F (long s, upper() = "S"), U+0131 (dotless i): refused *)
+Example C15_non_ascii_refused :
+  rad50_ascii [Str [64262%N]] = Err ["invalid-character"%string] /\
+  rad50_ascii [Str [383; 305; 75]%N] = Err ["invalid-character"%string; "invalid-character"%string] /\
+  accepted_char 383 = false /\ accepted_char 305 = false /\ accepted_char 8490 = false.
+Proof. vm_compute. repeat split; reflexivity. Qed.
 Example C15_code_40_refused : rad50_ascii [Code 40] = Err ["value-out-of-bounds"%string].
 Proof. vm_compute. reflexivity. Qed.
 Example C15_literal_example : literal_ascii [97; 36; 10]%N = Ok (1 * 1600 + 27 * 40 + 0).
